@@ -176,6 +176,20 @@ def oracle(sc, writes):
             elif (t - prev) not in Ks:
                 out.append(('KEEPALIVE at %s after %s s of silence (interval %s)' % (t, t - prev, sorted(Ks)), {'kind': 'early_keepalive'}))
         prev = t
+    # an explicit interval change that interrupts the wait ('pill') takes effect at once: from then on the connection is
+    # never silent for longer than the NEW interval (in particular when keepalives were disabled before)
+    wtimes = [t for t, _ in writes]
+    for i, (ct, kind, arg) in enumerate(sc.events):
+        ct = Fraction(ct)
+        if kind != 'pill' or Fraction(arg) <= 0 or (stop_t is not None and ct >= stop_t):
+            continue
+        later = [Fraction(t2) for t2, k2, _ in sc.events[i + 1:] if k2 in ('setk', 'pill', 'stop')]
+        limit = min(later + [Fraction(sc.horizon)])
+        nxt = [t for t in wtimes if t >= ct]
+        first = nxt[0] if nxt else None
+        if ct + Fraction(arg) < limit and (first is None or first - ct > Fraction(arg)):
+            out.append(('interval changed to %s s at %s with the wait interrupted, but nothing was written until %s' % (
+                Fraction(arg), ct, first if first is not None else 'the end'), {'kind': 'long_silence_after_change'}))
     end = Fraction(sc.horizon) if stop_t is None else stop_t
     Ks = ks_between(prev, end)
     if all(k > 0 for k in Ks) and end - prev > max(Ks):
